@@ -25,6 +25,7 @@ def run(ctx):
     ctx.harness(binary, ["format-replay", cpath, opath])
     out = vlib.read_ndjson(opath)
     unb = [o for o in out if o["kind"] == "unbuildable"]
+    ninfo = sum(1 for o in out if o["kind"] == "info")
     for o in out:
         if o["kind"] == "mismatch":
             fu = o.get("first_units", [])
@@ -37,7 +38,9 @@ def run(ctx):
     n, maxe = ctx.pick((200, 30), (1500, 200))
     tpath = ctx.path("trace.ndjson")
     ctx.harness(binary, ["format-record", tpath, str(n), str(maxe)])
-    events = vlib.read_ndjson(tpath)
+    # the images mila produced for the generated values are validated structurally by TLC as well
+    events = vlib.read_ndjson(opath + ".events") + vlib.read_ndjson(tpath)
+    vlib.write_ndjson(tpath, events)
     t = ctx.tlc("Trace_TextFormat", env={"TRACE": tpath}, workers=1, count=False, deque=True, timeout=3000)
     rep = t.tagged("R")
     if len(rep) != 1 or rep[0]["n"] != len(events):
@@ -46,6 +49,9 @@ def run(ctx):
         ev = events[i - 1]
         if k == 9:
             raise vlib.ToolError("harness produced duplicate keys")
+        if k == 4:      # byte image differs from the specification image: not demanded by the statement
+            ninfo += 1
+            continue
         fu = [kv[1][0] for kv in ev.get("entries", []) if kv[1]]
         bom = "bom-like-first-unit" if ev.get("fmt") == "unicode" and any(u in (65279, 65534, 48111) for u in fu) else ""
         ctx.violation({"dir": "impl->spec", "clause": CLAUSES[k], "fmt": ev.get("fmt"), "bom": bom, "why": ev.get("why", "")[:160]},
@@ -54,7 +60,10 @@ def run(ctx):
     ctx.evaluations += len(events)
     ctx.nontrivial += sum(1 for e in events if e.get("entries"))
     ctx.sample({"recorded_event": {k: events[1][k] for k in ("fmt", "endian", "title", "entries") if k in events[1]}})
-    ctx.extra.update({"generated_values": len(cases), "recorded_archives": len(events)})
+    ctx.extra.update({"generated_values": len(cases), "recorded_archives": len(events), "informational_mismatches": ninfo})
+    if ninfo:
+        print("NOTE (beyond the property statement): %d serialized images differ from the specification's canonical image "
+              "(layout is otherwise conforming and reads back correctly)" % ninfo)
     ctx.exhaustive = True
     ctx.assumptions += ["bounded enumeration: <= %d entries, curated titles/keys/messages; random archives beyond" % (2 if ctx.quick() else 3),
                         "messages avoid the two-character sequence backslash,n (set_message would turn it into a newline: that is C07)",
